@@ -43,7 +43,7 @@ m.write('C13', 'An aborted session still leaves a well-formed log of the complet
  (E, 'ex_aborted_log_shape', 'C13_example_aborted_log', None),
  (E, 'ex_aborted_model_is_the_real_run', 'C13_example_model_is_the_real_run', None),
 ])
-m.write('C08', "The table manager's log records exactly what was played (every schedule).", IMP.replace('Proofs.SessionExamples.', 'Proofs.SessionExamples Model.Conform Model.Json Proofs.RecordSpec Proofs.SessionPassOut Proofs.Wire Proofs.SessionConform Proofs.SessionConformLog Gen.JsonFns Proofs.JsonGen.'), '''(* FULL STATEMENT, PROVED (C08_conforming_session_log_is_the_reference / _every_schedule, Proofs/SessionConformLog.v): for
+m.write('C08', "The table manager's log records exactly what was played (every schedule).", IMP.replace('Proofs.SessionExamples.', 'Proofs.SessionExamples Model.Conform Model.Json Proofs.RecordSpec Proofs.SessionPassOut Proofs.Wire Proofs.SessionConform Proofs.SessionConformLog Gen.JsonFns Proofs.JsonGen Gen.ScoreFns Proofs.ScoreGen.'), '''(* FULL STATEMENT, PROVED (C08_conforming_session_log_is_the_reference / _every_schedule, Proofs/SessionConformLog.v): for
    every non-empty board list and every conforming behaviour of the four clients, under EVERY schedule the log is
    open ; one record per board, in order ; close, and each record is, as a JSON value, record_spec of the sequential reference
    (the boards and what the players said, by the Laws / play reference / Law 77 formulas of Spec/).  Clients connect in the
@@ -55,6 +55,7 @@ m.write('C08', "The table manager's log records exactly what was played (every s
  ('Proofs/SessionConformLog.v', 'conforming_session_log', 'C08_conforming_session_log', 'FULL, symbolic and unbounded, at the level of the thread network: a run of every conforming session ends with every process returned and the log open ; records ; close, where the record of board j is the record the model builds from board j and the four scripts'),
  ('Proofs/SessionConformLog.v', 'conforming_session_log_is_spec', 'C08_conforming_session_log_is_the_reference', 'and, as JSON values, the records are exactly the sequential reference record_spec of Spec/SessionSpec.v'),
  ('Proofs/SessionConformLog.v', 'conforming_session_log_every_schedule', 'C08_conforming_session_log_every_schedule', 'EVERY maximal run of the session ends in that same state - the log does not depend on thread timing'),
+ ('Proofs/ScoreGen.v', 'g_calc_score_eq', 'C08_generated_score_is_hand_model', 'calc_score REGENERATED from score.py on every run (with the numbers re-read from the source) equals the scoring function the session model uses'),
  ('Proofs/JsonGen.v', 'g_record_json_eq', 'C08_generated_record_writer_is_hand_model', 'the JSON value of a record as built by JsonLogWriter.write REGENERATED from writer.py on every run is record_json of the model'),
  ('Proofs/RecordSpec.v', 'model_record_is_record_spec', 'C08_model_record_is_the_reference_record', 'FULL, for every board and every conforming script (sequential, no threads): the record the table manager model builds with the MODEL functions (take_bid / contract_of, play_by / tricks, calc_score) is, as a JSON value, exactly record_spec of the sequential reference built with the SPEC functions (Laws, play reference, Law 77 formulas)'),
  (E, 'ex_played_real_run_is_the_reference', 'C08_example_log_is_the_reference', 'non-vacuity: the real run of a two-board session equals the sequential reference (log and transcripts)'),
